@@ -1,7 +1,7 @@
 package replaydetector
 
 //symgo:pkg github.com/pion/transport/v4/replaydetector
-//symgo:param NW quick=3 thorough=8
+//symgo:param NW quick=3 thorough=6
 //symgo:assume the representation invariant of the sliding window is: every previously accepted t satisfies t<=latest and (latest-t>=W or bit(latest-t)=1); every set bit d<W stands for an accepted number latest-d
 //symgo:outside window sizes that are not a multiple of 64 (not reachable from pion/dtls: effectiveReplayProtectionWindow rounds up; the dependency is wrong for sizes with remainder 33..63)
 //symgo:outside sequence numbers within W of 2^64 (64-bit wrap of seq+W; DTLS never exceeds 2^48-1)
